@@ -371,8 +371,8 @@ StrBytes(idx) == <<97 + (idx % 20), 98 + (idx % 20), 47, 58, 0>>      \* short z
 
 \* state threaded through the walk: [b |-> bytes, m |-> mask, i |-> next field index]
 RECURSIVE Walk(_, _, _), WalkRep(_, _, _, _), BoxBytes(_, _)
-One(st, n, bytes, mk) == [b |-> st.b \o bytes, m |-> st.m \o [k \in 1 .. Len(bytes) |-> IF k <= Len(mk) THEN mk[k] ELSE 0], i |-> st.i + 1,
-                              f |-> st.f \o <<[n |-> n, i |-> st.i, o |-> Len(st.b), w |-> Len(bytes)]>>]
+One(st, n, t, bytes, mk) == [b |-> st.b \o bytes, m |-> st.m \o [k \in 1 .. Len(bytes) |-> IF k <= Len(mk) THEN mk[k] ELSE 0], i |-> st.i + 1,
+                              f |-> st.f \o <<[n |-> n, t |-> t, i |-> st.i, o |-> Len(st.b), w |-> Len(bytes)]>>]
 Walk(fs, env, st) ==
     IF fs = <<>> THEN st
     ELSE LET f == Head(fs)
@@ -382,17 +382,17 @@ Walk(fs, env, st) ==
                           THEN Filler(IF env.rl > 0 /\ st.i >= env.rb THEN env.rb + ((st.i - env.rb) % env.rl) ELSE st.i, w)
                           ELSE Boundary(env.pick[2], w))
                     ELSE Filler(st.i, w)
-             st2 == CASE f.t = "u" -> One(st, f.n, val, f.mk)
-                      [] f.t = "cnt" -> One(st, f.n, BE(env.cnt, w), <<>>)
-                      [] f.t = "const" -> One(st, f.n, f.v, f.mk)
-                      [] f.t = "res" -> One(st, f.n, IF env.pick[1] = st.i /\ env.pick[2] # "dup1" THEN Boundary(env.pick[2], w) ELSE f.v, [k \in 1 .. w |-> 255])
-                      [] f.t = "str0" -> One(st, f.n, StrBytes(st.i), <<>>)
+             st2 == CASE f.t = "u" -> One(st, f.n, "u", val, f.mk)
+                      [] f.t = "cnt" -> One(st, f.n, "cnt", BE(env.cnt, w), <<>>)
+                      [] f.t = "const" -> One(st, f.n, "const", f.v, f.mk)
+                      [] f.t = "res" -> One(st, f.n, "res", IF env.pick[1] = st.i /\ env.pick[2] # "dup1" THEN Boundary(env.pick[2], w) ELSE f.v, [k \in 1 .. w |-> 255])
+                      [] f.t = "str0" -> One(st, f.n, "str0", StrBytes(st.i), <<>>)
                       [] f.t = "if" -> IF Holds(f.c, env.ver, env.flags) THEN Walk(f.f, env, st) ELSE [st EXCEPT !.i = st.i + Len(f.f)]
                       [] f.t = "rep" -> WalkRep(f.f, env, st, env.cnt)
                       [] f.t = "kids" -> LET kb == [k \in 1 .. Len(f.v) |-> BoxBytes(f.v[k], [ver |-> 0, flags |-> 0, cnt |-> 1, pick |-> <<0, "none">>, hdr |-> "s32", rb |-> 0, rl |-> 0])]
                                              RECURSIVE Cat(_, _) Cat(acc, k) == IF k > Len(kb) THEN acc
                                                                                 ELSE Cat([b |-> acc.b \o kb[k].b, m |-> acc.m \o kb[k].m, i |-> acc.i,
-                                                                                     f |-> acc.f \o [x \in 1 .. Len(kb[k].f) |-> [n |-> Layout(f.v[k]).type \o "." \o kb[k].f[x].n, i |-> 0,
+                                                                                     f |-> acc.f \o [x \in 1 .. Len(kb[k].f) |-> [n |-> Layout(f.v[k]).type \o "." \o kb[k].f[x].n, t |-> kb[k].f[x].t, i |-> 0,
                                                                                                                                  o |-> kb[k].f[x].o + Len(acc.b) + 8, w |-> kb[k].f[x].w]]], k + 1)
                                          IN Cat(st, 1)
          IN Walk(Tail(fs), env, st2)
